@@ -398,7 +398,7 @@ func (w *c11World) tickEmits() {
 	st := w.c.VerifState()
 	prim, havePrim := st.Servers[st.Primary]
 	usable := havePrim && !prim.Banned
-	if !w.c.VerifStep("tick") {
+	if !world.Step(w.c, "tick") {
 		w.fail("the reporting loop did not complete a granted tick within 10 s (wedged?) - lock free: %v", w.c.VerifTryLock())
 	}
 	if ps := client.VerifPanics(); len(ps) > 0 {
@@ -538,14 +538,11 @@ func TestC11ResyncAfterFailure(t *testing.T) {
 			ev.Label("c11:resync-no-eligible-server")
 			return
 		}
-		deadline := time.Now().Add(5 * time.Second)
 		want := eligible
 		if want > 5 {
 			want = 5
 		}
-		for total() < want && time.Now().Before(deadline) {
-			time.Sleep(5 * time.Millisecond)
-		}
+		world.WaitActive(6*time.Second, 5*time.Millisecond, func() bool { return total() >= want })
 		time.Sleep(150 * time.Millisecond) // let the round finish after its last attempt
 		if ps := client.VerifPanics(); len(ps) > 0 {
 			w.fail("client goroutine panicked during its own sync round: %s: %s", ps[0].Where, ps[0].Value)
@@ -557,10 +554,7 @@ func TestC11ResyncAfterFailure(t *testing.T) {
 		for i := 0; i < 4; i++ {
 			w.tickEmits()
 		}
-		deadline = time.Now().Add(5 * time.Second)
-		for total() == first && time.Now().Before(deadline) {
-			time.Sleep(5 * time.Millisecond)
-		}
+		world.WaitActive(6*time.Second, 5*time.Millisecond, func() bool { return total() != first })
 		if total() == first {
 			w.fail("after a failed sync round the client did not try to sync again within the next four ticks (lock free: %v)", w.c.VerifTryLock())
 		}
